@@ -82,6 +82,13 @@ def getType (ts : TypeSystem) (n : String) : R TypeRec :=
       | [t] => .ok t
       | _ => .error .typeNotFound
 
+/-- `TypeSystem.get_type(name, match_exactly=True)`: no short-name matching.  The loaders resolve the type an element of a
+    document names this way: a document names types by their full names -/
+def getTypeExact (ts : TypeSystem) (n : String) : R TypeRec :=
+  match find? ts n with
+  | some t => .ok t
+  | none => .error .typeNotFound
+
 /-- `TypeSystem.contains_type(name, match_exactly)` -/
 def containsType (ts : TypeSystem) (n : String) (exact : Bool := false) : Bool :=
   if hasDot n || exact then hasExact ts n
